@@ -398,7 +398,7 @@ Ltac serve_cases c hk q :=
           destruct (route c q) as [[[st arr] extra] echo];
           cbn [o_extra o_echo fst snd] in Hex, Hec ] ]
   | ];
-  cbn [r_rid r_std r_echo r_expose].
+  cbn [r_rid r_std r_echo r_expose r_ext].
 
 Lemma serve_one_rid c hk q :
   r_rid (serve_one c hk q) = resolve_request_id (q_rid q) (q_mint q).
@@ -421,6 +421,11 @@ Proof. intro Hk. serve_cases c hk q; try discriminate; reflexivity. Qed.
 Lemma serve_one_expose c q :
   r_expose (serve_one c true q) = if c_cors c then Some (expose_std (tg c), c_echo c) else None.
 Proof. now apply serve_one_expose_gen. Qed.
+
+Lemma serve_one_ext_gen c hk q : hk = true -> r_ext (serve_one c hk q) = ext_code c.
+Proof. intro Hk. serve_cases c hk q; try discriminate; reflexivity. Qed.
+Lemma serve_one_ext c q : r_ext (serve_one c true q) = ext_code c.
+Proof. now apply serve_one_ext_gen. Qed.
 
 Lemma serve_one_hook_failed c q :
   r_status (serve_one c false q) = 500 /\ r_std (serve_one c false q) = [H_rid]
@@ -457,12 +462,13 @@ Proof.
   intros Hm.
   pose proof (serve_one_rid c hk q) as Hrid. pose proof (serve_one_has_rid c hk q) as Hin.
   pose proof (serve_one_within c hk q) as Hem. destruct (serve_one_echo c hk q) as [Hecho _].
-  unfold resp_ok, render. cbn [o_rid o_present o_expose].
+  unfold resp_ok, render. cbn [o_rid o_present o_expose o_ext].
   apply andb_true_iff. split; [apply andb_true_iff; split|].
   - rewrite Hrid. now apply rid_ok_resolve.
   - apply bmem_in. change h_request_id with (hdr_name H_rid). apply names_std; [assumption | discriminate].
   - destruct hk; [|reflexivity]. pose proof (serve_one_caps c q) as Hcaps.
     pose proof (serve_one_expose c q) as Hexp.
+    apply andb_true_iff. split; [|rewrite serve_one_ext; apply N.eqb_refl].
     apply andb_true_iff. split.
     + apply bsubset_incl. intros x Hx. apply in_map_iff in Hx as [h [<- Hh]].
       apply names_std; [now apply Hcaps|]. intro E. subst. now apply caps_no_probe in Hh.
@@ -490,7 +496,7 @@ Qed.
 
 (* the server before fix 846e992: a 503 under CORS fails the property *)
 Definition witness_config : config :=
-  {| c_compress := false; c_ext := false; c_maxreq := false; c_maxresp := false; c_maxext := false;
+  {| c_compress := false; c_extmode := E_none; c_maxreq := false; c_maxresp := false; c_maxext := false;
      c_upload := false; c_maxupload := false; c_proof := false; c_extraproxy := false;
      c_introspect := false; c_sticky := false; c_oauth := false; c_cors := true; c_notfound := true;
      c_prefix := false; c_echo := []; c_auth := A_unavail |}.
@@ -552,9 +558,15 @@ Proof.
   - apply serve_one_echo.
 Qed.
 
-Lemma table_row r : In r c20_table -> row_ok r = true /\ row_covered r = true.
+Lemma table_all_ok : forallb (fun r => row_ok r && row_covered r) (c20_table ++ c20_table_resolve) = true.
+Proof. vm_compute. reflexivity. Qed.
+
+Lemma table_row r :
+  In r (c20_table ++ c20_table_resolve) -> row_ok r = true /\ row_covered r = true.
 Proof.
-  intro H. split.
-  - pose proof table_rows_are_model as T. rewrite forallb_forall in T. now apply T.
-  - pose proof table_rows_covered as T. rewrite forallb_forall in T. now apply T.
+  intro H. pose proof table_all_ok as T. rewrite forallb_forall in T.
+  apply andb_true_iff. now apply T.
 Qed.
+
+Lemma table_resolve_nonempty : (0 < length c20_table_resolve)%nat.
+Proof. vm_compute. lia. Qed.
